@@ -517,6 +517,12 @@ def oracle_free(c, stats):
 PARTS = [
     Part("lindep", strategy=lambda: gen_linear.linear_problem(singular_only=True, minx_mode="nonres"),
          oracle=oracle_lindep, n={"quick": 1500, "thorough": 15000}),
+    Part("lindep_large", strategy=lambda: gen_linear.graph_problem(singular_only=True, minx_mode="nonres"),
+         oracle=oracle_lindep, n={"quick": 500, "thorough": 6000},
+         sample=lambda c: {"m": c["m"], "n": c["n"], "d": c["d"], "minx": c["minx"]}),
+    Part("lindep_res_large", strategy=lambda: gen_linear.graph_problem(singular_only=True),
+         oracle=oracle_lindep, n={"quick": 500, "thorough": 6000},
+         sample=lambda c: {"m": c["m"], "n": c["n"], "d": c["d"], "minx": c["minx"]}),
     Part("lindep_res", strategy=lambda: gen_linear.linear_problem(singular_only=True),
          oracle=oracle_lindep, n={"quick": 1500, "thorough": 15000}),
     Part("planted", strategy=planted_case, oracle=oracle_planted, n={"quick": 2000, "thorough": 8000},
